@@ -8,8 +8,7 @@ a well-formed document of the grammar with exactly these tokens – provided the
 *representable*:
 
  * `rep` (on the result tree): no made-up arguments (as `noBare`); a command with a fixed
-   signature has its arguments as declared (at most `optional` bracket groups, then exactly
-   `required` brace groups – `argShape`). Nothing in `rep` depends on the mode (`rep_mode`);
+   signature has exactly `required` brace groups (`argShape`). Nothing in `rep` depends on the mode (`rep_mode`);
  * `SHyp` (on the tokens, closed under suffixes): no backslash at the very end; the token after a
    backslash is its own `strip()`; the argument read right after `\begin` (open signature) /
    `\end` (signature `(1, 0)`) is a brace group around one text token (`envNames`, stated on the
@@ -27,12 +26,13 @@ def isBraceG : Expr → Bool
   | .group .brace _ _ => true
   | _ => false
 
-/-- arguments as the signature declares them (nothing is asked of an open signature) -/
+/-- arguments as the signature declares them: a fixed signature has exactly `required` brace
+groups (nothing is asked of an open signature; that there are at most `optional` bracket groups,
+and where they stand, is the reader's doing). This excludes a command that is cut off by the end
+of input before all its required arguments (`\def` at the end). -/
 def argShape (sg : Int × Int) (args : List Expr) : Bool :=
   if sg.1 < 0 || sg.2 < 0 then true
-  else decide (((args.takeWhile isBracketG).length : Int) ≤ sg.2) &&
-    (args.dropWhile isBracketG).all isBraceG &&
-    decide (((args.dropWhile isBracketG).length : Int) = sg.1)
+  else decide ((args.countP isBraceG : Int) = sg.1)
 
 mutual
 /-- The tree is representable in the grammar (read in mode `m`). -/
